@@ -135,6 +135,16 @@ func c11Catalogue(maxChain int) []option {
 			return plantAt(p, inst, gen.J{"$ref": refForms[pi%len(refForms)]})
 		}})
 	}
+	// several spellings of what a normalisation would call the same target: each spelling is a $ref of its own
+	opts = append(opts, option{Label: "schemarefs@spellings", Plants: func(inst, pi int) []gen.Plant {
+		n := "spelled" + strconv.Itoa(inst)
+		props := gen.J{}
+		for i, r := range []string{"sub/o.json#/definitions/x", "./sub/o.json#/definitions/x", "SUB/o.json#/definitions/x", "sub/o.json#/definitions/X",
+			"sub/o.json#/definitions/x", "#/definitions/pet%20owner", "#/definitions/pet~0owner"} {
+			props["p"+strconv.Itoa(i)] = gen.J{"$ref": r}
+		}
+		return []gen.Plant{gen.P(gen.J{"type": "object", "properties": props}, "definitions", n)}
+	}})
 	pt := gen.BasePath
 	ref := func(pi int, base string) gen.J { return gen.J{"$ref": base + strconv.Itoa(pi%2)} }
 	// parameter $refs (path level and operation level)
